@@ -101,20 +101,20 @@ Proof.
   cbn [e_gen chess_env]. rewrite chess_stage_noev. unfold chess_stage, ids.
   destruct (k =? OD_1); [rewrite pawn1_nonev; reflexivity|].
   destruct (k =? OD_2).
-  { pose proof (gen_moves_eq p Hlegal true) as H. change (mode_of true) with 1 in H. rewrite H. cbn [unwrap map concat].
-    rewrite (comp_8 prom_nq p), app_nil_r. reflexivity. }
+  { pose proof (gen_moves_eq p Hlegal true) as H. change (mode_of true) with 1 in H.
+    cbn [map concat]. rewrite app_nil_r, (comp_8 prom_nq p). rewrite H. reflexivity. }
   destruct (k =? OD_3).
-  { pose proof (gen_king_eq p Hlegal true k0 K1 K2 K3) as H. change (mode_of true) with 1 in H. rewrite H. cbn [unwrap map concat].
-    rewrite (comp_7 prom_nq p), app_nil_r. reflexivity. }
+  { pose proof (gen_king_eq p Hlegal true k0 K1 K2 K3) as H. change (mode_of true) with 1 in H.
+    cbn [map concat]. rewrite app_nil_r, (comp_7 prom_nq p). rewrite H. reflexivity. }
   destruct (k =? OD_5); [rewrite pawn2_nonev; reflexivity|].
   destruct (k =? OD_6).
-  { rewrite (gen_castling_eq p Hlegal). cbn [unwrap map concat]. rewrite (comp_12 prom_nq p), app_nil_r. reflexivity. }
+  { cbn [map concat]. rewrite app_nil_r, (comp_12 prom_nq p). rewrite (gen_castling_eq p Hlegal). reflexivity. }
   destruct (k =? OD_7).
-  { pose proof (gen_moves_eq p Hlegal false) as H. change (mode_of false) with 2 in H. rewrite H. cbn [unwrap map concat].
-    rewrite (comp_14 prom_nq p), app_nil_r. reflexivity. }
+  { pose proof (gen_moves_eq p Hlegal false) as H. change (mode_of false) with 2 in H.
+    cbn [map concat]. rewrite app_nil_r, (comp_14 prom_nq p). rewrite H. reflexivity. }
   destruct (k =? OD_8).
-  { pose proof (gen_king_eq p Hlegal false k0 K1 K2 K3) as H. change (mode_of false) with 2 in H. rewrite H. cbn [unwrap map concat].
-    rewrite (comp_13 prom_nq p), app_nil_r. reflexivity. }
+  { pose proof (gen_king_eq p Hlegal false k0 K1 K2 K3) as H. change (mode_of false) with 2 in H.
+    cbn [map concat]. rewrite app_nil_r, (comp_13 prom_nq p). rewrite H. reflexivity. }
   reflexivity.
 Qed.
 
@@ -124,19 +124,19 @@ Proof.
   cbn [e_gen chess_env]. unfold chess_stage, ids.
   destruct (k =? OD_1); [rewrite pawn1_ev; reflexivity|].
   destruct (k =? OD_2).
-  { pose proof (ev_moves p Hlegal evt true) as H. change (mode_of true) with 1 in H. rewrite H. cbn [unwrap map concat].
-    rewrite (keep_mask p 8 ltac:(clear; tauto)). rewrite (comp_8 prom_nq p), app_nil_r. reflexivity. }
+  { pose proof (ev_moves p Hlegal evt true) as H. change (mode_of true) with 1 in H.
+    cbn [map concat]. rewrite app_nil_r, (keep_mask p 8 ltac:(clear; tauto)), (comp_8 prom_nq p). rewrite H. reflexivity. }
   destruct (k =? OD_3).
-  { pose proof (ev_king p Hlegal true k0 K1 K2 K3) as H. change (mode_of true) with 1 in H. rewrite H. cbn [unwrap map concat].
-    rewrite (keep_king p 7 ltac:(clear; tauto)). rewrite (comp_7 prom_nq p), app_nil_r. reflexivity. }
+  { pose proof (ev_king p Hlegal true k0 K1 K2 K3) as H. change (mode_of true) with 1 in H.
+    cbn [map concat]. rewrite app_nil_r, (keep_king p 7 ltac:(clear; tauto)), (comp_7 prom_nq p). rewrite H. reflexivity. }
   destruct (k =? OD_5); [rewrite pawn2_ev; reflexivity|].
   destruct (N.eqb_spec k OD_6) as [E|_]; [contradiction|].
   destruct (k =? OD_7).
-  { pose proof (ev_moves p Hlegal evt false) as H. change (mode_of false) with 2 in H. rewrite H. cbn [unwrap map concat].
-    rewrite (keep_mask p 14 ltac:(clear; tauto)). rewrite (comp_14 prom_nq p), app_nil_r. reflexivity. }
+  { pose proof (ev_moves p Hlegal evt false) as H. change (mode_of false) with 2 in H.
+    cbn [map concat]. rewrite app_nil_r, (keep_mask p 14 ltac:(clear; tauto)), (comp_14 prom_nq p). rewrite H. reflexivity. }
   destruct (k =? OD_8).
-  { pose proof (ev_king p Hlegal false k0 K1 K2 K3) as H. change (mode_of false) with 2 in H. rewrite H. cbn [unwrap map concat].
-    rewrite (keep_king p 13 ltac:(clear; tauto)). rewrite (comp_13 prom_nq p), app_nil_r. reflexivity. }
+  { pose proof (ev_king p Hlegal false k0 K1 K2 K3) as H. change (mode_of false) with 2 in H.
+    cbn [map concat]. rewrite app_nil_r, (keep_king p 13 ltac:(clear; tauto)), (comp_13 prom_nq p). rewrite H. reflexivity. }
   reflexivity.
 Qed.
 
@@ -177,9 +177,10 @@ Lemma batch_false_perm mode : exists l, gen_pseudo prom_nq v mode false = Some l
   Permutation (od_batch env mode true false) l.
 Proof.
   destruct (od_batch_chess prom_nq p Hlegal key srt mode) as (l & Hl & Pl). exists l. split; [exact Hl|].
-  rewrite <- Pl. unfold od_batch. apply Permutation_refl'. f_equal. apply map_ext. intros k.
+  rewrite <- Pl. unfold od_batch. apply Permutation_refl'. apply (f_equal (@concat N)). apply map_ext. intros k.
   unfold stage_gen, EVT. cbn [e_evt chess_env e_gen].
-  destruct (_ || _); [now rewrite chess_stage_noev|]. destruct (k =? OD_6); [now rewrite chess_stage_noev|reflexivity].
+  destruct (_ || _); [rewrite chess_stage_noev; reflexivity|].
+  destruct (k =? OD_6); [rewrite chess_stage_noev; reflexivity|reflexivity].
 Qed.
 
 Lemma batch_false_nodup mode : NoDup (od_batch env mode true false).
@@ -198,14 +199,15 @@ Proof.
   { clear - H. intros s Hs.
     repeat (apply nodup_app_inv in H as (? & H & _)).
     cbn [In] in Hs. decompose [or] Hs; subst; try assumption; try contradiction. }
-  rewrite sg_false. unfold ids.
-  destruct (N.eqb_spec k OD_1) as [->|_]; [rewrite <- (sg_false OD_1); apply Hin; cbn; auto|].
-  destruct (N.eqb_spec k OD_2) as [->|_]; [rewrite <- (sg_false OD_2); apply Hin; cbn; auto|].
-  destruct (N.eqb_spec k OD_3) as [->|_]; [rewrite <- (sg_false OD_3); apply Hin; cbn; auto|].
-  destruct (N.eqb_spec k OD_5) as [->|_]; [rewrite <- (sg_false OD_5); apply Hin; cbn; auto|].
-  destruct (N.eqb_spec k OD_6) as [->|_]; [rewrite <- (sg_false OD_6); apply Hin; cbn; auto 10|].
-  destruct (N.eqb_spec k OD_7) as [->|_]; [rewrite <- (sg_false OD_7); apply Hin; cbn; auto 10|].
-  destruct (N.eqb_spec k OD_8) as [->|_]; [rewrite <- (sg_false OD_8); apply Hin; cbn; auto 10|].
+  destruct (in_dec N.eq_dec k [OD_1; OD_2; OD_3; OD_5; OD_6; OD_7; OD_8]) as [Hk|Hk]; [now apply Hin|].
+  rewrite sg_false. unfold ids. cbn [In] in Hk.
+  replace (k =? OD_1) with false by (symmetry; apply N.eqb_neq; intros ->; apply Hk; auto 10).
+  replace (k =? OD_2) with false by (symmetry; apply N.eqb_neq; intros ->; apply Hk; auto 10).
+  replace (k =? OD_3) with false by (symmetry; apply N.eqb_neq; intros ->; apply Hk; auto 10).
+  replace (k =? OD_5) with false by (symmetry; apply N.eqb_neq; intros ->; apply Hk; auto 10).
+  replace (k =? OD_6) with false by (symmetry; apply N.eqb_neq; intros ->; apply Hk; auto 10).
+  replace (k =? OD_7) with false by (symmetry; apply N.eqb_neq; intros ->; apply Hk; auto 10).
+  replace (k =? OD_8) with false by (symmetry; apply N.eqb_neq; intros ->; apply Hk; auto 10).
   constructor.
 Qed.
 
